@@ -72,6 +72,10 @@ fn main() {
                 println!("[{}] {} => {:?}", f.status, f.signature, sigs);
             }
         }
+        "witness1" => {
+            let p = props::get(&args[2]).expect("prop");
+            runner::witness_child(p.as_ref(), &args[3]);
+        }
         "c03one" => {
             props::c03::child_one(&args[2]);
         }
